@@ -7,7 +7,7 @@
    `serve_forever`, that a cancelled Timer thread exits, and the process exit itself are runtime
    behaviour; a callback is one atomic step. *)
 From Coq Require Import String.
-From DS Require Import Base.Prelude Model.LdgLedger Model.LdgInst Proofs.LdgLedger Proofs.LdgInst Gen.LdgLedger.
+From DS Require Import Base.Prelude Model.LdgLedger Model.LdgInst Proofs.LdgLedger Proofs.LdgQuiesce Proofs.LdgInst Gen.LdgLedger.
 
 (* Generic: for any table passing the boolean side conditions — every activity that blocks
    process exit is stored in an attribute that system_stop cancels/joins adequately, and every
@@ -71,3 +71,20 @@ Theorem C07_acu : forall init l0 evs st,
   blocking_alive (stop tbl_acu (snd st)) = [].
 Proof. exact clean_acu. Qed.
 Print Assumptions C07_acu.
+
+(* totalpower timer chains end: once the stop flag is set or the data socket is closed
+   ([tp_quiet]), each firing strictly lowers the weight (2 per live chain timer / socket, 1 per
+   live waiter) — no firing re-arms — so at most [wt] further firings can happen at all, in any
+   order; and system_stop of the current tree leaves the instance quiet. *)
+Theorem C07_totalpower_stopped_chains_end : forall T evs c l st,
+  tp_quiet c = true -> forallb tp_is_fire evs = true -> iruns tp_op T (c, l) evs = Some st ->
+  tp_quiet (fst st) = true /\ (List.length evs + wt (l_live (snd st)) <= wt (l_live l))%nat.
+Proof. exact tp_stopped_chains_end. Qed.
+Print Assumptions C07_totalpower_stopped_chains_end.
+
+Theorem C07_totalpower_chains_end_after_stop : forall c l st1 evs st,
+  istep tp_op tbl_totalpower (c, l) TpSysStop = Some st1 ->
+  forallb tp_is_fire evs = true -> iruns tp_op tbl_totalpower st1 evs = Some st ->
+  (List.length evs + wt (l_live (snd st)) <= wt (l_live (snd st1)))%nat.
+Proof. exact totalpower_chains_end_after_stop. Qed.
+Print Assumptions C07_totalpower_chains_end_after_stop.
